@@ -1,0 +1,17 @@
+//go:build verif
+
+package constraint
+
+import (
+	"math/big"
+
+	"github.com/consensys/gnark/constraint/solver"
+)
+
+// VerifHintHook, when set, is called after every hint function returns; it may modify outputs
+// and the returned error. cs is the *system being solved.
+var VerifHintHook func(cs any, id solver.HintID, q *big.Int, inputs, outputs []*big.Int, err error) error
+
+// VerifPostSolveHook, when set, is called with the solved wire vector (fr.Vector of the field)
+// and the solution object (*R1CSSolution or *SparseR1CSSolution) just before Solve returns it.
+var VerifPostSolveHook func(cs any, values any, solution any)
